@@ -42,6 +42,7 @@ from dclab import kde_methods as dkde
 from dclab import util as dutil
 from dclab.cached import Cache
 from dclab.features import contour as dcontour
+from dclab.rtdc_dataset import feat_temp
 
 ID = "C17"
 RULE = ("Hypothesis-generated call histories (lists of operations executed by an "
@@ -989,7 +990,8 @@ def _st_contour(draw, tier):
 VIEWS = ["hdf5", "dict", "child", "gchild", "dchild", "basin", "mapped"]
 FEATS = ["deform", "area_um", "aspect", "index", "image", "mask", "trace",
          "contour"]
-KIND = {"deform": "scalar-innate", "area_um": "scalar-innate",
+TEMP = "vf_temp"
+KIND = {TEMP: "scalar-temp", "deform": "scalar-innate", "area_um": "scalar-innate",
         "aspect": "scalar-anc", "index": "scalar-index", "image": "image",
         "mask": "mask", "trace": "trace", "contour": "contour-anc"}
 VIEW_FEATS = {
@@ -1000,6 +1002,11 @@ VIEW_FEATS = {
     "basin": ["deform", "area_um", "image", "mask", "trace", "contour"],
     "mapped": ["deform", "area_um", "image", "mask", "contour"],
 }
+for _v in ("hdf5", "dict", "child", "gchild", "dchild"):
+    # appended: the existing feature selectors keep their meaning modulo the length
+    VIEW_FEATS[_v] = list(VIEW_FEATS[_v]) + [TEMP]
+TEMP_ROOT = {"hdf5": "hdf5", "child": "hdf5", "gchild": "hdf5", "dict": "dict",
+             "dchild": "dict"}
 API = ["kde_scatter", "kde_scatter_pos", "kde_contour", "downsampled",
        "downsampled_mask"]
 
@@ -1117,8 +1124,15 @@ def _ds_history(spec, rec, d, opened):
     nontrivial = False
     was_read, stale = set(), set()
 
+    temp_root = {}
+    temp_set_after_read = set()
+    if any(op[0] == "temp" for op in spec["ops"]):
+        feat_temp.register_temporary_feature(TEMP, is_scalar=True)
+
     def truth(view, feat, sel):
         idx = index[view][sel]
+        if feat == TEMP:
+            return temp_root[TEMP_ROOT[view]][idx]
         if feat in ("deform", "area_um", "image", "mask"):
             return data[feat][idx]
         if feat == "trace":
@@ -1146,6 +1160,12 @@ def _ds_history(spec, rec, d, opened):
             rec.cls(f"ds:kind:{kind}")
             if (view, feat) in stale:
                 rec.cls("ds:read-after-refilter")
+                nontrivial = True
+            if feat == TEMP and TEMP_ROOT[view] not in temp_root:
+                rec.skip("ds:temp-not-set-yet")
+                continue
+            if (view, feat) in temp_set_after_read:
+                rec.cls("ds:read-after-temp-replaced")
                 nontrivial = True
             was_read_before = set(was_read)
             was_read.add((view, feat))
@@ -1226,6 +1246,30 @@ def _ds_history(spec, rec, d, opened):
                 rec.cls("ds:readonly")
             else:
                 rec.skip("ds:modification-without-effect")
+        elif op[0] == "temp":
+            if view not in TEMP_ROOT:
+                rec.skip("ds:temp-on-basin-view")
+                continue
+            arr = np.random.default_rng(op[2]).normal(size=nv)
+            feat_temp.set_temporary_feature(ds, TEMP, arr.copy())
+            root = TEMP_ROOT[view]
+            if view == root:
+                temp_root[root] = arr
+            else:
+                full = np.full(n, np.nan)
+                full[index[view]] = arr
+                temp_root[root] = full
+            # a change made through the root or a middle level is seen by the levels
+            # below after the documented refresh from the youngest member (a set
+            # through the youngest member itself needs no further refresh)
+            for ch in (("gchild", "child") if root == "hdf5" else ("dchild",)):
+                if ch in views:
+                    if ch != view:
+                        views[ch].rejuvenate()
+                    break
+            rec.cls("ds:temp-set:" + ("root" if view == root else view))
+            temp_set_after_read |= {k for k in was_read if k[1] == TEMP
+                                    and TEMP_ROOT.get(k[0]) == root}
         elif op[0] == "refilter":
             if "gchild" in views:
                 rec.skip("ds:refilter-with-grandchild")
@@ -1317,10 +1361,20 @@ def _st_ds(draw, tier):
                     st.integers(0, 2))
     refilter = st.tuples(st.just("refilter"), st.just(0),
                          st.lists(st.booleans(), min_size=2, max_size=14))
+    temp = st.tuples(st.just("temp"), st.sampled_from([0, 1, 2, 3, 3, 4]),
+                     st.integers(0, 10 ** 6))
+    # the temporary feature is the last entry of the view's feature list
+    tread = st.tuples(st.just("read"), st.sampled_from([0, 2, 3, 3]), st.just(8),
+                      st.integers(0, 6), st.integers(0, 14), st.integers(0, 14),
+                      st.integers(0, 2))
     ops = []
     for _ in range(draw(st.integers(2, 9))):
-        which = draw(st.sampled_from(["read", "read", "read", "api", "refilter"]))
-        if which == "read":
+        which = draw(st.sampled_from(["read", "read", "read", "api", "refilter",
+                                      "temp"]))
+        if which == "temp":
+            # set (through any level), read through some levels, replace, read again
+            ops += [draw(temp), draw(tread), draw(tread), draw(temp), draw(tread)]
+        elif which == "read":
             ops.append(draw(read()))
         elif which == "api":
             ops.append(draw(api))
